@@ -35,10 +35,11 @@ package parser
 //@   ensures [inv] LexInv(l)
 //@   ensures [C08,C17:pos16] Pos16(l)
 //@   ensures [spec] l.pos == skipsp(l.input, old(l.pos))
+//@   ensures [C08:colgrow] ColGrow(l)
 //@   ensures [col] l.column == old(l.column) + l.pos - old(l.pos)
 //@   ensures [frame] l.input == old(l.input) && l.line == old(l.line) && l.atStart == old(l.atStart)
 //@   modifies l.pos, l.column
-//@   loop 1 invariant LexInv(l) && Pos16(l) && l.input == old(l.input) && l.line == old(l.line) && l.atStart == old(l.atStart)
+//@   loop 1 invariant LexInv(l) && Pos16(l) && ColGrow(l) && l.input == old(l.input) && l.line == old(l.line) && l.atStart == old(l.atStart)
 //@   loop 1 invariant old(l.pos) <= l.pos && l.pos <= skipsp(l.input, old(l.pos))
 //@   loop 1 invariant l.column == old(l.column) + l.pos - old(l.pos)
 //@   loop 1 decreases len(l.input) - l.pos
@@ -56,10 +57,12 @@ package parser
 //@   ensures [progress] l.pos > old(l.pos)
 //@   ensures [span] result.Pos.Offset == old(l.pos) && result.End.Offset == l.pos && result.Type == TokenText
 //@   ensures [posvalid] result.Pos.Line >= 1 && result.Pos.Column >= 1 && result.Pos.Line <= len(l.input) + 1 && result.Pos.Column <= len(l.input) + 1
+//@   ensures [C08:colgrow] ColGrow(l) && l.line == old(l.line)
+//@   ensures [C08:tokline] result.Pos.Line == old(l.line) && l.line >= old(l.line)
 //@   ensures [C08:endvalid] result.End.Line >= 1 && result.End.Column >= 1 && result.End.Line <= len(l.input) + 1 && result.End.Column <= len(l.input) + 1
 //@   ensures [stop] l.pos == len(l.input) || l.input[l.pos] == '\n' || l.input[l.pos] == ';' || l.input[l.pos] == '|'
 //@   modifies l.pos, l.column
-//@   loop 1 invariant LexInv(l) && Pos16(l) && l.input == old(l.input) && l.atStart == old(l.atStart) && l.line == old(l.line)
+//@   loop 1 invariant LexInv(l) && Pos16(l) && ColGrow(l) && l.input == old(l.input) && l.atStart == old(l.atStart) && l.line == old(l.line)
 //@   loop 1 invariant old(l.pos) <= l.pos && start == old(l.pos) && startPos.Offset == old(l.pos)
 //@   loop 1 invariant l.pos == old(l.pos) ==> l.input[l.pos] != '\n' && l.input[l.pos] != ';' && l.input[l.pos] != '|'
 //@   loop 1 decreases len(l.input) - l.pos
@@ -77,9 +80,11 @@ package parser
 //@   ensures [span] result.Pos.Offset == old(l.pos) && result.End.Offset == l.pos && result.Type == TokenNumber
 //@   ensures [C02:number_takes_its_marks] l.pos == len(l.input) || (l.input[l.pos] != '.' && l.input[l.pos] != ',' && (l.input[l.pos] < '0' || l.input[l.pos] > '9'))
 //@   ensures [posvalid] result.Pos.Line >= 1 && result.Pos.Column >= 1 && result.Pos.Line <= len(l.input) + 1 && result.Pos.Column <= len(l.input) + 1
+//@   ensures [C08:colgrow] ColGrow(l) && l.line == old(l.line)
+//@   ensures [C08:tokline] result.Pos.Line == old(l.line) && l.line >= old(l.line)
 //@   ensures [C08:endvalid] result.End.Line >= 1 && result.End.Column >= 1 && result.End.Line <= len(l.input) + 1 && result.End.Column <= len(l.input) + 1
 //@   modifies l.pos, l.column
-//@   loop 1 invariant LexInv(l) && Pos16(l) && l.input == old(l.input) && l.atStart == old(l.atStart) && l.line == old(l.line)
+//@   loop 1 invariant LexInv(l) && Pos16(l) && ColGrow(l) && l.input == old(l.input) && l.atStart == old(l.atStart) && l.line == old(l.line)
 //@   loop 1 invariant old(l.pos) <= l.pos && start == old(l.pos) && startPos.Offset == old(l.pos)
 //@   loop 1 invariant l.pos == old(l.pos) ==> l.input[l.pos] >= '0' && l.input[l.pos] <= '9'
 //@   loop 1 decreases len(l.input) - l.pos
@@ -96,6 +101,7 @@ package parser
 //@   ensures [step] l.pos == old(l.pos) + 1 && l.line == old(l.line) + 1 && l.column == 1 && l.atStart
 //@   ensures [span] result.Pos.Offset == old(l.pos) && result.End.Offset == l.pos && result.Type == TokenNewline
 //@   ensures [posvalid] result.Pos.Line >= 1 && result.Pos.Column >= 1 && result.Pos.Line <= len(l.input) + 1 && result.Pos.Column <= len(l.input) + 1
+//@   ensures [C08:tokline] result.Pos.Line == old(l.line) && l.line >= old(l.line)
 //@   ensures [C08:endvalid] result.End.Line >= 1 && result.End.Column >= 1 && result.End.Line <= len(l.input) + 1 && result.End.Column <= len(l.input) + 1
 //@   modifies l.pos, l.column, l.line, l.atStart
 
@@ -111,11 +117,13 @@ package parser
 //@   ensures [progress] l.pos > old(l.pos)
 //@   ensures [span] result.Pos.Offset == old(l.pos) && result.End.Offset == l.pos && result.Type == TokenComment
 //@   ensures [posvalid] result.Pos.Line >= 1 && result.Pos.Column >= 1 && result.Pos.Line <= len(l.input) + 1 && result.Pos.Column <= len(l.input) + 1
+//@   ensures [C08:colgrow] ColGrow(l) && l.line == old(l.line)
+//@   ensures [C08:tokline] result.Pos.Line == old(l.line) && l.line >= old(l.line)
 //@   ensures [C08:endvalid] result.End.Line >= 1 && result.End.Column >= 1 && result.End.Line <= len(l.input) + 1 && result.End.Column <= len(l.input) + 1
 //@   ensures [stop] l.pos == len(l.input) || l.input[l.pos] == '\n'
 //@   ensures [noNL] forall k :: {l.input[k]} old(l.pos) <= k && k < l.pos ==> l.input[k] != '\n'
 //@   modifies l.pos, l.column
-//@   loop 1 invariant LexInv(l) && Pos16(l) && l.input == old(l.input) && l.atStart == old(l.atStart) && l.line == old(l.line)
+//@   loop 1 invariant LexInv(l) && Pos16(l) && ColGrow(l) && l.input == old(l.input) && l.atStart == old(l.atStart) && l.line == old(l.line)
 //@   loop 1 invariant old(l.pos) < l.pos && start == old(l.pos) + 1 && startPos.Offset == old(l.pos)
 //@   loop 1 invariant forall k :: {l.input[k]} old(l.pos) <= k && k < l.pos ==> l.input[k] != '\n'
 //@   loop 1 decreases len(l.input) - l.pos
@@ -133,10 +141,12 @@ package parser
 //@   ensures [progress] l.pos > old(l.pos)
 //@   ensures [span] result.Pos.Offset == old(l.pos) && old(l.pos) < result.End.Offset && result.End.Offset <= l.pos && result.Type == TokenAccount
 //@   ensures [posvalid] result.Pos.Line >= 1 && result.Pos.Column >= 1 && result.Pos.Line <= len(l.input) + 1 && result.Pos.Column <= len(l.input) + 1
+//@   ensures [C08:colgrow] ColGrow(l) && l.line == old(l.line)
+//@   ensures [C08:tokline] result.Pos.Line == old(l.line) && l.line >= old(l.line)
 //@   ensures [C08:endvalid] result.End.Line >= 1 && result.End.Column >= 1 && result.End.Line <= len(l.input) + 1 && result.End.Column <= len(l.input) + 1
 //@   ensures [C08,C09:lexeme_exact] result.End.Offset == old(l.pos) + len(result.Value)
 //@   modifies l.pos, l.column
-//@   loop 1 invariant LexInv(l) && Pos16(l) && l.input == old(l.input) && l.atStart == old(l.atStart) && l.line == old(l.line)
+//@   loop 1 invariant LexInv(l) && Pos16(l) && ColGrow(l) && l.input == old(l.input) && l.atStart == old(l.atStart) && l.line == old(l.line)
 //@   loop 1 invariant old(l.pos) <= lastNonSpace && lastNonSpace <= l.pos && start == old(l.pos) && startPos.Offset == old(l.pos) && endPos.Offset == lastNonSpace && PosOK(l.input, endPos)
 //@   loop 1 invariant l.pos > old(l.pos) ==> lastNonSpace > old(l.pos)
 //@   loop 1 invariant endPos.Line >= 1 && endPos.Column >= 1 && endPos.Line <= len(l.input) + 1 && endPos.Column <= len(l.input) + 1
@@ -155,12 +165,14 @@ package parser
 //@   ensures [progress] old(l.pos) < len(l.input) ==> l.pos > old(l.pos)
 //@   ensures [span] old(l.pos) <= result.Pos.Offset && result.Pos.Offset <= result.End.Offset && result.End.Offset <= l.pos
 //@   ensures [posvalid] result.Pos.Line >= 1 && result.Pos.Column >= 1 && result.Pos.Line <= len(l.input) + 1 && result.Pos.Column <= len(l.input) + 1
+//@   ensures [C08:tokline] result.Pos.Line == old(l.line) && l.line >= old(l.line)
 //@   ensures [C08:endvalid] result.End.Line >= 1 && result.End.Column >= 1 && result.End.Line <= len(l.input) + 1 && result.End.Column <= len(l.input) + 1
 //@   ensures [eof] result.Type == TokenEOF ==> l.pos == len(l.input)
 //@   ensures [C17:pos_at_lexeme] result.Type != TokenEOF ==> result.Pos.Offset == skipsp(l.input, old(l.pos))
 //@   modifies l.pos, l.column, l.line, l.atStart
 
-//@ pred Frame3(l) := l.input == old(l.input) && l.atStart == old(l.atStart) && l.line == old(l.line)
+//@ pred ColGrow(l) := (l.pos == old(l.pos) && l.column == old(l.column)) || (l.pos > old(l.pos) && l.column > old(l.column))
+//@ pred Frame3(l) := l.input == old(l.input) && l.atStart == old(l.atStart) && l.line == old(l.line) && ColGrow(l)
 //@ pred isDig(c) := c >= '0' && c <= '9'
 //@ pred isLet(c) := (c >= 'a' && c <= 'z') || (c >= 'A' && c <= 'Z')
 //@ pred notTextStop(c) := c != '\n' && c != ';' && c != '|'
@@ -235,6 +247,7 @@ package parser
 //@   ensures [progress] l.pos > old(l.pos)
 //@   ensures [span] result.Pos.Offset == old(l.pos) && result.End.Offset == l.pos && result.Type == TokenDate
 //@   ensures [posvalid] result.Pos.Line >= 1 && result.Pos.Column >= 1 && result.Pos.Line <= len(l.input) + 1 && result.Pos.Column <= len(l.input) + 1
+//@   ensures [C08:tokline] result.Pos.Line == old(l.line) && l.line >= old(l.line)
 //@   ensures [C08:endvalid] result.End.Line >= 1 && result.End.Column >= 1 && result.End.Line <= len(l.input) + 1 && result.End.Column <= len(l.input) + 1
 //@   ensures [frame] Frame3(l)
 //@   modifies l.pos, l.column
@@ -254,6 +267,7 @@ package parser
 //@   ensures [progress] l.pos > old(l.pos)
 //@   ensures [span] result.Pos.Offset == old(l.pos) && result.End.Offset == l.pos && result.Type == TokenStatus
 //@   ensures [posvalid] result.Pos.Line >= 1 && result.Pos.Column >= 1 && result.Pos.Line <= len(l.input) + 1 && result.Pos.Column <= len(l.input) + 1
+//@   ensures [C08:tokline] result.Pos.Line == old(l.line) && l.line >= old(l.line)
 //@   ensures [C08:endvalid] result.End.Line >= 1 && result.End.Column >= 1 && result.End.Line <= len(l.input) + 1 && result.End.Column <= len(l.input) + 1
 //@   ensures [frame] Frame3(l)
 //@   modifies l.pos, l.column
@@ -270,6 +284,7 @@ package parser
 //@   ensures [progress] l.pos > old(l.pos)
 //@   ensures [span] result.Pos.Offset == old(l.pos) && result.End.Offset == l.pos && result.Type == TokenCode
 //@   ensures [posvalid] result.Pos.Line >= 1 && result.Pos.Column >= 1 && result.Pos.Line <= len(l.input) + 1 && result.Pos.Column <= len(l.input) + 1
+//@   ensures [C08:tokline] result.Pos.Line == old(l.line) && l.line >= old(l.line)
 //@   ensures [C08:endvalid] result.End.Line >= 1 && result.End.Column >= 1 && result.End.Line <= len(l.input) + 1 && result.End.Column <= len(l.input) + 1
 //@   ensures [frame] Frame3(l)
 //@   modifies l.pos, l.column
@@ -288,6 +303,7 @@ package parser
 //@   ensures [progress] l.pos > old(l.pos)
 //@   ensures [span] result.Pos.Offset == old(l.pos) && result.End.Offset == l.pos && result.Type == TokenIndent
 //@   ensures [posvalid] result.Pos.Line >= 1 && result.Pos.Column >= 1 && result.Pos.Line <= len(l.input) + 1 && result.Pos.Column <= len(l.input) + 1
+//@   ensures [C08:tokline] result.Pos.Line == old(l.line) && l.line >= old(l.line)
 //@   ensures [C08:endvalid] result.End.Line >= 1 && result.End.Column >= 1 && result.End.Line <= len(l.input) + 1 && result.End.Column <= len(l.input) + 1
 //@   ensures [frame] Frame3(l)
 //@   modifies l.pos, l.column
@@ -308,6 +324,7 @@ package parser
 //@   ensures [progress] l.pos > old(l.pos)
 //@   ensures [span] result.Pos.Offset == old(l.pos) && result.End.Offset == l.pos && result.Type == TokenCommodity
 //@   ensures [posvalid] result.Pos.Line >= 1 && result.Pos.Column >= 1 && result.Pos.Line <= len(l.input) + 1 && result.Pos.Column <= len(l.input) + 1
+//@   ensures [C08:tokline] result.Pos.Line == old(l.line) && l.line >= old(l.line)
 //@   ensures [C08:endvalid] result.End.Line >= 1 && result.End.Column >= 1 && result.End.Line <= len(l.input) + 1 && result.End.Column <= len(l.input) + 1
 //@   ensures [frame] Frame3(l)
 //@   modifies l.pos, l.column
@@ -324,6 +341,7 @@ package parser
 //@   ensures [progress] l.pos > old(l.pos)
 //@   ensures [span] result.Pos.Offset == old(l.pos) && result.End.Offset == l.pos && result.Type == TokenCommodity
 //@   ensures [posvalid] result.Pos.Line >= 1 && result.Pos.Column >= 1 && result.Pos.Line <= len(l.input) + 1 && result.Pos.Column <= len(l.input) + 1
+//@   ensures [C08:tokline] result.Pos.Line == old(l.line) && l.line >= old(l.line)
 //@   ensures [C08:endvalid] result.End.Line >= 1 && result.End.Column >= 1 && result.End.Line <= len(l.input) + 1 && result.End.Column <= len(l.input) + 1
 //@   ensures [frame] Frame3(l)
 //@   modifies l.pos, l.column
@@ -342,6 +360,7 @@ package parser
 //@   ensures [progress] l.pos > old(l.pos)
 //@   ensures [span] result.Pos.Offset == old(l.pos) && result.End.Offset == l.pos && (result.Type == TokenAt || result.Type == TokenAtAt)
 //@   ensures [posvalid] result.Pos.Line >= 1 && result.Pos.Column >= 1 && result.Pos.Line <= len(l.input) + 1 && result.Pos.Column <= len(l.input) + 1
+//@   ensures [C08:tokline] result.Pos.Line == old(l.line) && l.line >= old(l.line)
 //@   ensures [C08:endvalid] result.End.Line >= 1 && result.End.Column >= 1 && result.End.Line <= len(l.input) + 1 && result.End.Column <= len(l.input) + 1
 //@   ensures [frame] Frame3(l)
 //@   modifies l.pos, l.column
@@ -358,6 +377,7 @@ package parser
 //@   ensures [progress] l.pos > old(l.pos)
 //@   ensures [span] result.Pos.Offset == old(l.pos) && result.End.Offset == l.pos && (result.Type == TokenEquals || result.Type == TokenDoubleEquals)
 //@   ensures [posvalid] result.Pos.Line >= 1 && result.Pos.Column >= 1 && result.Pos.Line <= len(l.input) + 1 && result.Pos.Column <= len(l.input) + 1
+//@   ensures [C08:tokline] result.Pos.Line == old(l.line) && l.line >= old(l.line)
 //@   ensures [C08:endvalid] result.End.Line >= 1 && result.End.Column >= 1 && result.End.Line <= len(l.input) + 1 && result.End.Column <= len(l.input) + 1
 //@   ensures [frame] Frame3(l)
 //@   modifies l.pos, l.column
@@ -374,6 +394,7 @@ package parser
 //@   ensures [progress] l.pos > old(l.pos)
 //@   ensures [span] result.Pos.Offset == old(l.pos) && result.End.Offset == l.pos && result.Type == TokenSign
 //@   ensures [posvalid] result.Pos.Line >= 1 && result.Pos.Column >= 1 && result.Pos.Line <= len(l.input) + 1 && result.Pos.Column <= len(l.input) + 1
+//@   ensures [C08:tokline] result.Pos.Line == old(l.line) && l.line >= old(l.line)
 //@   ensures [C08:endvalid] result.End.Line >= 1 && result.End.Column >= 1 && result.End.Line <= len(l.input) + 1 && result.End.Column <= len(l.input) + 1
 //@   ensures [frame] Frame3(l)
 //@   modifies l.pos, l.column
@@ -390,6 +411,7 @@ package parser
 //@   ensures [progress] l.pos > old(l.pos)
 //@   ensures [span] result.Pos.Offset == old(l.pos) && old(l.pos) < result.End.Offset && result.End.Offset <= l.pos && result.Type != TokenEOF
 //@   ensures [posvalid] result.Pos.Line >= 1 && result.Pos.Column >= 1 && result.Pos.Line <= len(l.input) + 1 && result.Pos.Column <= len(l.input) + 1
+//@   ensures [C08:tokline] result.Pos.Line == old(l.line) && l.line >= old(l.line)
 //@   ensures [C08:endvalid] result.End.Line >= 1 && result.End.Column >= 1 && result.End.Line <= len(l.input) + 1 && result.End.Column <= len(l.input) + 1
 //@   ensures [frame] Frame3(l)
 //@   modifies l.pos, l.column
@@ -411,6 +433,7 @@ package parser
 //@   ensures [progress] l.pos > old(l.pos)
 //@   ensures [span] result.Pos.Offset == old(l.pos) && result.End.Offset == l.pos && result.Type != TokenEOF
 //@   ensures [posvalid] result.Pos.Line >= 1 && result.Pos.Column >= 1 && result.Pos.Line <= len(l.input) + 1 && result.Pos.Column <= len(l.input) + 1
+//@   ensures [C08:tokline] result.Pos.Line == old(l.line) && l.line >= old(l.line)
 //@   ensures [C08:endvalid] result.End.Line >= 1 && result.End.Column >= 1 && result.End.Line <= len(l.input) + 1 && result.End.Column <= len(l.input) + 1
 //@   ensures [frame] Frame3(l)
 //@   modifies l.pos, l.column
@@ -431,6 +454,7 @@ package parser
 //@   ensures [progress] l.pos > old(l.pos)
 //@   ensures [span] old(l.pos) <= result.Pos.Offset && result.Pos.Offset <= result.End.Offset && result.End.Offset <= l.pos
 //@   ensures [posvalid] result.Pos.Line >= 1 && result.Pos.Column >= 1 && result.Pos.Line <= len(l.input) + 1 && result.Pos.Column <= len(l.input) + 1
+//@   ensures [C08:tokline] result.Pos.Line == old(l.line) && l.line >= old(l.line)
 //@   ensures [C08:endvalid] result.End.Line >= 1 && result.End.Column >= 1 && result.End.Line <= len(l.input) + 1 && result.End.Column <= len(l.input) + 1
 //@   ensures [eof] result.Type == TokenEOF ==> l.pos == len(l.input)
 //@   modifies l.pos, l.column, l.line, l.atStart
@@ -448,21 +472,22 @@ package parser
 //@   ensures [atend] old(l.pos) >= len(l.input) ==> result.Type == TokenEOF && l.pos == old(l.pos)
 //@   ensures [span] old(l.pos) <= result.Pos.Offset && result.Pos.Offset <= result.End.Offset && result.End.Offset <= l.pos
 //@   ensures [posvalid] result.Pos.Line >= 1 && result.Pos.Column >= 1 && result.Pos.Line <= len(l.input) + 1 && result.Pos.Column <= len(l.input) + 1
+//@   ensures [C08:tokline] result.Pos.Line == old(l.line) && l.line >= old(l.line)
 //@   ensures [C08:endvalid] result.End.Line >= 1 && result.End.Column >= 1 && result.End.Line <= len(l.input) + 1 && result.End.Column <= len(l.input) + 1
 //@   ensures [eof] result.Type == TokenEOF ==> l.pos == len(l.input)
 //@   modifies l.pos, l.column, l.line, l.atStart
 
 //@ pred PosIn(q, n) := q.Line >= 1 && q.Column >= 1 && q.Line <= n + 1 && q.Column <= n + 1
 //@ pred ErrOK(p) := forall k int :: {p.errors[k]} 0 <= k && k < len(p.errors) ==> PosIn(p.errors[k].Pos, len(p.lexer.input))
-//@ pred ParInv(p) := p != nil && p.lexer != nil && LexInv(p.lexer) && Pos16(p.lexer) && (p.current.Type == TokenEOF ==> p.lexer.pos == len(p.lexer.input)) && PosIn(p.current.Pos, len(p.lexer.input)) && PosIn(p.current.End, len(p.lexer.input)) && PosOK(p.lexer.input, p.current.Pos) && PosOK(p.lexer.input, p.current.End) && len(p.current.Value) <= len(p.lexer.input) && ErrOK(p)
+//@ pred ParInv(p) := p != nil && p.lexer != nil && LexInv(p.lexer) && Pos16(p.lexer) && (p.current.Type == TokenEOF ==> p.lexer.pos == len(p.lexer.input)) && p.current.Pos.Line <= p.lexer.line && PosIn(p.current.Pos, len(p.lexer.input)) && PosIn(p.current.End, len(p.lexer.input)) && PosOK(p.lexer.input, p.current.Pos) && PosOK(p.lexer.input, p.current.End) && len(p.current.Value) <= len(p.lexer.input) && ErrOK(p)
 //@ pred MuLe(p) := 2 * (len(p.lexer.input) - p.lexer.pos) + ite(p.current.Type != TokenEOF, 1, 0) <= old(2 * (len(p.lexer.input) - p.lexer.pos) + ite(p.current.Type != TokenEOF, 1, 0))
 //@ pred MuLt(p) := 2 * (len(p.lexer.input) - p.lexer.pos) + ite(p.current.Type != TokenEOF, 1, 0) < old(2 * (len(p.lexer.input) - p.lexer.pos) + ite(p.current.Type != TokenEOF, 1, 0))
 //@ pred Mu(p) := 2 * (len(p.lexer.input) - p.lexer.pos) + ite(p.current.Type != TokenEOF, 1, 0)
-//@ pred PFrame(p) := p.lexer == old(p.lexer) && p.lexer.input == old(p.lexer.input)
+//@ pred PFrame(p) := p.lexer == old(p.lexer) && p.lexer.input == old(p.lexer.input) && p.current.Pos.Line >= old(p.current.Pos.Line)
 
 //@ func (*Parser).advance
 //@   props C06
-//@   requires p != nil && p.lexer != nil && LexInv(p.lexer) && Pos16(p.lexer) && ErrOK(p)
+//@   requires p != nil && p.lexer != nil && LexInv(p.lexer) && Pos16(p.lexer) && ErrOK(p) && p.current.Pos.Line <= p.lexer.line
 //@   ensures [inv] ParInv(p) && PFrame(p)
 //@   ensures [le] MuLe(p)
 //@   ensures [lt] old(p.current.Type) != TokenEOF ==> MuLt(p)
@@ -585,6 +610,7 @@ package parser
 // DirOK: the account / commodity named by a directive has a range inside the input.
 //@ pred DirOK(d, n) := (typeis(d, "ast.AccountDirective") ==> PosIn(as(d, "ast.AccountDirective").Account.Range.Start, n) && PosIn(as(d, "ast.AccountDirective").Account.Range.End, n)) && (typeis(d, "ast.CommodityDirective") && as(d, "ast.CommodityDirective").Commodity.Symbol != "" ==> PosIn(as(d, "ast.CommodityDirective").Commodity.Range.Start, n) && PosIn(as(d, "ast.CommodityDirective").Commodity.Range.End, n))
 // TxHeadOK: the date of a transaction has a range inside the input and the description position is absent or valid.
+//@ pred TxRangeOK(tx, n) := PosIn(tx.Range.Start, n) && PosIn(tx.Range.End, n) && tx.Range.Start.Line <= tx.Range.End.Line
 //@ pred TxHeadOK(tx, n) := PosIn(tx.Date.Range.Start, n) && PosIn(tx.Date.Range.End, n) && ((tx.DescriptionPos.Line == 0 && tx.DescriptionPos.Column == 0) || PosIn(tx.DescriptionPos, n)) && len(tx.Description) <= 2 * n + 3 && len(tx.Payee) <= n
 //@ func (*Parser).parsePosting
 //@   props C06
@@ -600,6 +626,7 @@ package parser
 //@   ensures [inv] ParInv(p) && PFrame(p) && MuLe(p)
 //@   ensures [posting_lines] result != nil ==> (forall k int :: {result.Postings[k]} 0 <= k && k < len(result.Postings) ==> PLine(result.Postings[k], len(p.lexer.input)))
 //@   ensures [head_ranges] result != nil ==> TxHeadOK(result, len(p.lexer.input))
+//@   ensures [C08:tx_range] result != nil ==> TxRangeOK(result, len(p.lexer.input)) && result.Range.Start.Line == old(p.current.Pos.Line) && result.Range.End.Line == p.current.Pos.Line && result.Range.End.Column == p.current.Pos.Column
 //@   ensures [C08:description_pos] result != nil ==> (result.DescriptionPos.Line == 0 && result.DescriptionPos.Column == 0) || PosOK(p.lexer.input, result.DescriptionPos)
 //@   ensures [lt] MuLt(p)
 //@   modifies p.current, p.errors, p.defaultYear, p.lexer.pos, p.lexer.column, p.lexer.line, p.lexer.atStart
@@ -616,8 +643,12 @@ package parser
 //@   ensures [directive_ranges] forall d int :: {result.Directives[d]} 0 <= d && d < len(result.Directives) ==> DirOK(result.Directives[d], len(p.lexer.input))
 //@   ensures [head_ranges] forall i int :: {result.Transactions[i]} 0 <= i && i < len(result.Transactions) ==> TxHeadOK(result.Transactions[i], len(p.lexer.input))
 //@   ensures [posting_lines] forall i int, k int :: {result.Transactions[i].Postings[k]} 0 <= i && i < len(result.Transactions) && 0 <= k && k < len(result.Transactions[i].Postings) ==> PLine(result.Transactions[i].Postings[k], len(p.lexer.input))
+//@   ensures [C08:tx_ranges] forall i int :: {result.Transactions[i]} 0 <= i && i < len(result.Transactions) ==> TxRangeOK(result.Transactions[i], len(p.lexer.input))
+//@   ensures [C08:tx_ordered] forall i int, j int :: {result.Transactions[i]; result.Transactions[j]} 0 <= i && i < j && j < len(result.Transactions) ==> result.Transactions[i].Range.End.Line <= result.Transactions[j].Range.Start.Line
 //@   modifies p.current, p.errors, p.defaultYear, p.lexer.pos, p.lexer.column, p.lexer.line, p.lexer.atStart
 //@   loop 1 invariant ParInv(p) && PFrame(p) && journal != nil && fresh(journal)
+//@   loop 1 invariant forall i int :: {journal.Transactions[i]} 0 <= i && i < len(journal.Transactions) ==> TxRangeOK(journal.Transactions[i], len(p.lexer.input)) && journal.Transactions[i].Range.End.Line <= p.current.Pos.Line
+//@   loop 1 invariant forall i int, j int :: {journal.Transactions[i]; journal.Transactions[j]} 0 <= i && i < j && j < len(journal.Transactions) ==> journal.Transactions[i].Range.End.Line <= journal.Transactions[j].Range.Start.Line
 //@   loop 1 invariant forall d int :: {journal.Directives[d]} 0 <= d && d < len(journal.Directives) ==> DirOK(journal.Directives[d], len(p.lexer.input))
 //@   loop 1 invariant forall i int :: {journal.Transactions[i]} 0 <= i && i < len(journal.Transactions) ==> TxHeadOK(journal.Transactions[i], len(p.lexer.input))
 //@   loop 1 invariant forall i int, k int :: {journal.Transactions[i].Postings[k]} 0 <= i && i < len(journal.Transactions) && 0 <= k && k < len(journal.Transactions[i].Postings) ==> PLine(journal.Transactions[i].Postings[k], len(p.lexer.input))
@@ -703,4 +734,6 @@ package parser
 //@   ensures [directive_ranges] forall d int :: {result0.Directives[d]} 0 <= d && d < len(result0.Directives) ==> DirOK(result0.Directives[d], len(input))
 //@   ensures [head_ranges] forall i int :: {result0.Transactions[i]} 0 <= i && i < len(result0.Transactions) ==> TxHeadOK(result0.Transactions[i], len(input))
 //@   ensures [posting_lines] forall i int, k int :: {result0.Transactions[i].Postings[k]} 0 <= i && i < len(result0.Transactions) && 0 <= k && k < len(result0.Transactions[i].Postings) ==> PLine(result0.Transactions[i].Postings[k], len(input))
+//@   ensures [C08:tx_ranges] forall i int :: {result0.Transactions[i]} 0 <= i && i < len(result0.Transactions) ==> TxRangeOK(result0.Transactions[i], len(input))
+//@   ensures [C08:tx_ordered] forall i int, j int :: {result0.Transactions[i]; result0.Transactions[j]} 0 <= i && i < j && j < len(result0.Transactions) ==> result0.Transactions[i].Range.End.Line <= result0.Transactions[j].Range.Start.Line
 //@   ensures [C08:errpos] forall k int :: {result1[k]} 0 <= k && k < len(result1) ==> PosIn(result1[k].Pos, len(input))
